@@ -24,6 +24,11 @@ pub struct GenOpts {
     /// Probability (percent) of a connect-type statement.
     pub connect_pct: u32,
     pub recompose_npo: bool,
+    /// "Clean" programs avoid the constructs that are known (see known_findings.jsonl, C09/C10)
+    /// to give unprovable circuits: connect classes with two leaf creators (public / const /
+    /// private / hint output), Horner steps outside a proper chain, and a private input used as
+    /// the minuend / dividend of a backwards op.
+    pub clean: bool,
 }
 
 impl Default for GenOpts {
@@ -36,6 +41,7 @@ impl Default for GenOpts {
             div: true,
             connect_pct: 18,
             recompose_npo: false,
+            clean: false,
         }
     }
 }
@@ -56,6 +62,9 @@ struct G<'a, S: Setup> {
     privates: Vec<S::E>,
     last_horner: Option<V>,
     opts: GenOpts,
+    /// connect classes (union-find parent) and number of leaf creators per class root
+    cls: Vec<usize>,
+    leafs: Vec<u32>,
 }
 
 fn small_val<S: Setup>(rng: &mut SmallRng) -> S::E {
@@ -75,12 +84,63 @@ fn small_val<S: Setup>(rng: &mut SmallRng) -> S::E {
 }
 
 impl<'a, S: Setup> G<'a, S> {
+    fn find(&mut self, v: usize) -> usize {
+        let mut r = v;
+        while self.cls[r] != r {
+            r = self.cls[r];
+        }
+        self.cls[v] = r;
+        r
+    }
+    fn union(&mut self, a: usize, b: usize) {
+        let (ra, rb) = (self.find(a), self.find(b));
+        if ra != rb {
+            self.cls[rb] = ra;
+            self.leafs[ra] += self.leafs[rb];
+        }
+    }
+    fn leaf_count(&mut self, v: usize) -> u32 {
+        let r = self.find(v);
+        self.leafs[r]
+    }
+    fn can_connect(&mut self, a: usize, b: usize) -> bool {
+        if !self.opts.clean {
+            return true;
+        }
+        let (ra, rb) = (self.find(a), self.find(b));
+        ra == rb || self.leafs[ra] + self.leafs[rb] <= 1
+    }
     fn push(&mut self, st: Stmt, outs: Vec<S::E>) -> V {
         let first = self.vals.len();
         let k = st.kind();
+        let leaf = matches!(k, "const" | "public" | "private" | "decompose_bits" | "decompose_ext");
+        let ops = st.operands();
+        // builder-level folding can return an operand itself (x+0, x*1, select with equal
+        // branches, ...) or a constant (all-constant operands): be conservative about aliasing.
+        let all_const = !ops.is_empty() && ops.iter().all(|o| self.kinds[*o] == "const");
+        let has_unit_const = ops.iter().any(|o| {
+            self.kinds[*o] == "const" && (self.vals[*o] == S::E::ZERO || self.vals[*o] == S::E::ONE)
+        });
+        let repeated = ops.len() >= 2 && ops.iter().any(|o| ops.iter().filter(|p| *p == o).count() > 1);
         for o in outs {
+            let id = self.vals.len();
             self.vals.push(o);
             self.kinds.push(k);
+            self.cls.push(id);
+            self.leafs.push(if leaf || all_const { 1 } else { 0 });
+            if !leaf && !matches!(k, "connect" | "assert_bool" | "assert_zero") && (has_unit_const || repeated || ops.len() <= 1) {
+                for op in ops.clone() {
+                    self.union(op, id);
+                }
+            }
+        }
+        if let Stmt::Connect(a, b) = &st {
+            self.union(*a, *b);
+        }
+        if let Stmt::AssertZero(a) = &st {
+            // connect to the zero constant
+            let r = self.find(*a);
+            self.leafs[r] += 1;
         }
         self.prog.stmts.push(st);
         first
@@ -150,9 +210,9 @@ impl<'a, S: Setup> G<'a, S> {
         let r = self.rng.random_range(0..100u32);
         if r < 30 {
             self.push(Stmt::Add(a, b), vec![va + vb]);
-        } else if r < 50 {
+        } else if r < 50 && !(self.opts.clean && self.kinds[a] == "private") {
             self.push(Stmt::Sub(a, b), vec![va - vb]);
-        } else if r < 85 {
+        } else if r < 85 || (self.opts.clean && self.kinds[a] == "private") {
             self.push(Stmt::Mul(a, b), vec![va * vb]);
         } else if self.opts.div && vb != S::E::ZERO {
             self.push(Stmt::Div(a, b), vec![va * vb.inverse()]);
@@ -179,7 +239,11 @@ impl<'a, S: Setup> G<'a, S> {
                 self.push(Stmt::Sub(m, c), vec![vm - vc]);
             }
             _ => {
-                self.push(Stmt::Sub(c, m), vec![vc - vm]);
+                if self.opts.clean && self.kinds[c] == "private" {
+                    self.push(Stmt::Add(c, m), vec![vc + vm]);
+                } else {
+                    self.push(Stmt::Sub(c, m), vec![vc - vm]);
+                }
             }
         }
         if chance(self.rng, 1, 3) {
@@ -194,7 +258,26 @@ impl<'a, S: Setup> G<'a, S> {
         let v = self.vals[a] * self.vals[b] + self.vals[c];
         self.push(Stmt::MulAdd(a, b, c), vec![v]);
     }
+    fn horner_chain(&mut self) {
+        // proper chain: starts from the zero constant, every step takes the previous step's
+        // result as accumulator, same alpha, consecutive statements.
+        let zero = match (0..self.n()).find(|i| self.kinds[*i] == "const" && self.vals[*i] == S::E::ZERO) {
+            Some(z) => z,
+            None => self.new_const(S::E::ZERO),
+        };
+        let alpha = self.var();
+        let k = self.rng.random_range(1..7usize);
+        let pairs: Vec<(V, V)> = (0..k).map(|_| (self.var(), self.var())).collect();
+        let mut acc = zero;
+        for (z, x) in pairs {
+            let v = self.vals[acc] * self.vals[alpha] + self.vals[z] - self.vals[x];
+            acc = self.push(Stmt::Horner { acc, alpha, z, x }, vec![v]);
+        }
+    }
     fn horner(&mut self) {
+        if self.opts.clean {
+            return self.horner_chain();
+        }
         let acc = match self.last_horner {
             Some(h) if chance(self.rng, 2, 3) => h,
             _ => self.var(),
@@ -235,10 +318,19 @@ impl<'a, S: Setup> G<'a, S> {
         let b = if !mates.is_empty() && r < 6 {
             mates[self.rng.random_range(0..mates.len())]
         } else if r < 8 {
+            if self.opts.clean && self.leaf_count(a) > 0 {
+                return;
+            }
             self.new_input(va)
         } else {
+            if self.opts.clean && self.leaf_count(a) > 0 {
+                return;
+            }
             self.new_const(va)
         };
+        if !self.can_connect(a, b) {
+            return;
+        }
         if chance(self.rng, 1, 2) {
             self.push(Stmt::Connect(a, b), vec![]);
         } else {
@@ -255,7 +347,9 @@ impl<'a, S: Setup> G<'a, S> {
         }
         if r == 1 {
             if let Some(z) = self.var_where(|v| *v == S::E::ZERO) {
-                self.push(Stmt::AssertZero(z), vec![]);
+                if !self.opts.clean || self.leaf_count(z) == 0 {
+                    self.push(Stmt::AssertZero(z), vec![]);
+                }
                 return;
             }
         }
@@ -268,6 +362,9 @@ impl<'a, S: Setup> G<'a, S> {
         } else {
             mates[self.rng.random_range(0..mates.len())]
         };
+        if self.opts.clean && (self.kinds[a] == "private" || self.leaf_count(a) > 0 && self.leaf_count(b) > 0) {
+            return;
+        }
         let d = self.push(Stmt::Sub(a, b), vec![S::E::ZERO]);
         self.push(Stmt::AssertZero(d), vec![]);
     }
@@ -288,7 +385,7 @@ impl<'a, S: Setup> G<'a, S> {
         let si = cands[self.rng.random_range(0..cands.len())];
         let st = self.prog.stmts[si].clone();
         let alias = |g: &mut Self, v: V| -> V {
-            if chance(g.rng, 1, 2) {
+            if chance(g.rng, 1, 2) && !(g.opts.clean && g.leaf_count(v) > 0) {
                 let val = g.vals[v];
                 let w = g.new_input(val);
                 g.push(Stmt::Connect(v, w), vec![]);
@@ -322,6 +419,9 @@ impl<'a, S: Setup> G<'a, S> {
         // often the duplicate's result is then tied to something already defined
         if chance(self.rng, 1, 2) {
             let last = self.n() - 1;
+            if self.opts.clean && self.leaf_count(last) > 0 {
+                return;
+            }
             let v = self.vals[last];
             let w = self.new_input(v);
             self.push(Stmt::Connect(last, w), vec![]);
@@ -375,11 +475,10 @@ impl<'a, S: Setup> G<'a, S> {
             }
             let cv: Vec<S::E> = cs.iter().map(|c| self.vals[*c]).collect();
             let v = crate::prog::basis_recompose::<S>(&cv);
-            let mode = if self.opts.recompose_npo {
-                self.rng.random_range(0..3u8)
-            } else {
-                [0u8, 2u8][self.rng.random_range(0..2usize)]
-            };
+            // mode 1 (`recompose/coeff` table) needs the split-table prover configuration that
+            // only the D1-permutation-in-D5 recursion backend uses; the harness registers the
+            // standard recompose table, so only the default and the forced-ALU modes are generated.
+            let mode = [0u8, 2u8][self.rng.random_range(0..2usize)];
             let r = self.push(Stmt::RecomposeExt(cs, mode), vec![v]);
             if chance(self.rng, 1, 2) {
                 let cs2: Vec<S::E> = S::coeffs(&self.vals[r]).iter().map(|c| S::el(&[*c])).collect();
@@ -428,6 +527,8 @@ pub fn gen_prog<S: Setup>(rng: &mut SmallRng, opts: &GenOpts) -> Generated<S> {
         privates: vec![],
         last_horner: None,
         opts: opts.clone(),
+        cls: vec![],
+        leafs: vec![],
     };
     let n_leaves = g.rng.random_range(1..5usize);
     for _ in 0..n_leaves {
@@ -466,6 +567,9 @@ pub fn gen_prog<S: Setup>(rng: &mut SmallRng, opts: &GenOpts) -> Generated<S> {
     let k = g.rng.random_range(0..3usize);
     for _ in 0..k {
         let a = g.var();
+        if g.opts.clean && g.leaf_count(a) > 0 {
+            continue;
+        }
         let va = g.vals[a];
         let p = g.new_public(va);
         g.push(Stmt::Connect(a, p), vec![]);
